@@ -111,6 +111,23 @@ Proof. unfold check_depth. apply Nat.leb_gt. Qed.
 Lemma check_depth_true n : check_depth n = true <-> LIMIT <= n.
 Proof. unfold check_depth. apply Nat.leb_le. Qed.
 
+(* RecursionCheck::enter refuses level LIMIT; inside, the counter stays below LIMIT *)
+Lemma check_recursion_refuses {A} (p : parser A) i :
+  LIMIT <= S (depth i) -> exists i', check_recursion p i = Cut (err_of RecursionLimit) i'.
+Proof.
+  intro H. unfold check_recursion. cbn [depth set_depth].
+  destruct (Nat.leb LIMIT (S (depth i))) eqn:E.
+  - eexists; reflexivity.
+  - apply Nat.leb_gt in E. lia.
+Qed.
+
+Lemma check_recursion_inside {A} (p : parser A) i a i' :
+  check_recursion p i = Ok a i' -> S (depth i) < LIMIT.
+Proof.
+  intro H. unfold check_recursion in H. cbn [depth set_depth] in H.
+  destruct (Nat.leb LIMIT (S (depth i))) eqn:E; [discriminate|]. apply Nat.leb_gt in E. exact E.
+Qed.
+
 (* ---- (c) depth preservation ------------------------------------------------------------- *)
 Definition dp {A} (p : parser A) : Prop := forall i a i', p i = Ok a i' -> depth i' = depth i.
 
